@@ -28,6 +28,22 @@ func (e *Engine) mapGet(m *MapV, k Value) (Value, bool) {
 		if s, ok := it.V.(Str); ok && !s.isC() {
 			panic(unsupported("symbolic iface string key"))
 		}
+		if ki, ok := it.V.(Int); ok && ki.T != nil {
+			// interface-typed key holding a symbolic integer: fork over stored keys of the same dynamic type
+			for i, kk := range m.keys {
+				if m.del[i] {
+					continue
+				}
+				if kit, ok := kk.(Iface); ok && kit.T != nil && types.Identical(kit.T, it.T) {
+					if kc, ok := kit.V.(Int); ok && kc.W == ki.W {
+						if e.Branch(mkEq(ki.T, kc.term())) {
+							return m.vals[i], true
+						}
+					}
+				}
+			}
+			return nil, false
+		}
 	}
 	if ki, ok := k.(Int); ok && ki.T != nil {
 		// symbolic integer key: fork over the stored integer keys
@@ -257,6 +273,9 @@ func (e *Engine) builtin(b *ssa.Builtin, args []Value, call *ssa.Call) Value {
 		switch y := args[1].(type) {
 		case Slice:
 			for i := 0; i < y.Len; i++ {
+				if e.ls.on && len(e.inPool) > 0 {
+					e.noteOwnership(&(*y.A)[y.Off+i], "read")
+				}
 				add = append(add, copyVal((*y.A)[y.Off+i]))
 			}
 		case Str:
@@ -296,6 +315,9 @@ func (e *Engine) builtin(b *ssa.Builtin, args []Value, call *ssa.Call) Value {
 			n = min(d.Len, y.Len)
 			tmp := make([]Value, n)
 			for i := 0; i < n; i++ {
+				if e.ls.on && len(e.inPool) > 0 {
+					e.noteOwnership(&(*y.A)[y.Off+i], "read")
+				}
 				tmp[i] = copyVal((*y.A)[y.Off+i])
 			}
 			for i := 0; i < n; i++ {
